@@ -111,16 +111,20 @@ class LocalInference:
                     alpha *= 0.5
             prev_l = l
 
+        # the loop examines the loss of every iterate except the last one (checked here, before the
+        # feasibility sweeps, so that a restart does not pay for them)
+        restart = iters > 0 and t <= 50 and alpha > 1e-8 and self._marginal_loss(mu)[0] > l
+
         # run some extra iterations with no gradient update to make sure things are primal feasible
-        for _ in range(1000):
+        for _ in range(0 if restart else 1000):
             if model.primal_feasibility(mu) < 1.0:
                 break
             mu = model.belief_propagation(theta)
             if callback is not None:
                 callback(mu)
 
-        # the loop examines the loss of every iterate except the one that is returned
-        if iters > 0 and t <= 50 and alpha > 1e-8 and self._marginal_loss(mu)[0] > l:
+        # ... and the sweeps above change the marginals that are returned
+        if restart or (iters > 0 and t <= 50 and alpha > 1e-8 and self._marginal_loss(mu)[0] > l):
             if self.log: print('Reducing learning rate and restarting', alpha/2)
             model.potentials = theta0
             model.messages = messages0
